@@ -115,11 +115,24 @@ def deep(tr, emissions: int = 0) -> dict:
     return d
 
 
+def _no_none(d: dict) -> dict:
+    return {el: {k: v for k, v in attrs.items() if v is not None} for el, attrs in d.items()}
+
+
 def deep_diff(a: dict, b: dict, ignore=("counters", "lookup_order")) -> list:
+    """Around edits and refused edits (the default `ignore`) an attribute stored as None and
+    an attribute that is absent are the same thing - that is the library's own reading
+    (its getters return None for both, its actions save and restore values that are not
+    None). Around read-only operations (callers that also compare `lookup_order`) the raw
+    attribute dictionaries are compared: an export has no business touching them."""
     out = []
+    lenient = "lookup_order" in ignore
     for k in a:
         if k in ignore:
             continue
+        if lenient and k in ("nodes", "edges"):
+            if _no_none(a[k]) == _no_none(b[k]):
+                continue
         if a[k] != b[k]:
             if isinstance(a[k], dict) and isinstance(b[k], dict):
                 ks = [x for x in sorted(set(a[k]) | set(b[k]), key=repr) if a[k].get(x) != b[k].get(x)]
